@@ -268,6 +268,91 @@ theorem published_every_declared_name (svc meth : List HSpec) (h : HSpec) (hh : 
     · obtain ⟨x, hx, hxn⟩ := name_mem_foldl_merge (svc ++ meth) [] (List.mem_append.mpr hh) hn
       exact ⟨x, mem_sortByName.mpr hx, hxn⟩
 
+theorem self_mem_putExact (h : HSpec) (l : List HSpec) : h ∈ putExact h l := by
+  induction l with
+  | nil => simp [putExact]
+  | cons y t ih =>
+    unfold putExact
+    split
+    · exact List.mem_cons_self
+    · exact List.mem_cons_of_mem _ ih
+
+theorem mem_putExact_of_name_ne {y z : HSpec} {l : List HSpec} (hy : y ∈ l) (hn : y.name ≠ z.name) : y ∈ putExact z l := by
+  induction l with
+  | nil => cases hy
+  | cons w t ih =>
+    unfold putExact
+    rcases List.mem_cons.mp hy with h1 | h1
+    · subst h1
+      rw [if_neg hn]
+      exact List.mem_cons_self
+    · split
+      · exact List.mem_cons_of_mem _ h1
+      · exact List.mem_cons_of_mem _ (ih h1)
+
+theorem mem_foldl_merge_kept (l : List HSpec) {acc : List HSpec} {y : HSpec} (hy : y ∈ acc)
+    (hl : ∀ z ∈ l, z.name ≠ y.name) : y ∈ l.foldl mergeStep acc := by
+  induction l generalizing acc with
+  | nil => exact hy
+  | cons z t ih =>
+    apply ih
+    · unfold mergeStep
+      split
+      · exact hy
+      · exact mem_putExact_of_name_ne hy (fun e => hl z List.mem_cons_self e.symm)
+    · intro w hw; exact hl w (List.mem_cons_of_mem _ hw)
+
+/-- **a method-level declaration replaces the service-level one of the same name in the published list**:
+with pairwise distinct names among the method's declarations, every named method header is itself among
+the operation's header parameters (whatever the service declares under that name). -/
+theorem published_method_wins (svc meth : List HSpec) (hs : svc ≠ []) (hd : (meth.map (·.name)).Nodup)
+    (h : HSpec) (hh : h ∈ meth) (hn : h.name ≠ []) : h ∈ combineHeaders svc meth := by
+  unfold combineHeaders
+  have hm : meth ≠ [] := by intro e; rw [e] at hh; cases hh
+  rw [if_neg (by simpa [List.isEmpty_iff] using hs), if_neg (by simpa [List.isEmpty_iff] using hm)]
+  apply mem_sortByName.mpr
+  obtain ⟨s, t, rfl⟩ := List.append_of_mem hh
+  have hnd : ∀ z ∈ t, z.name ≠ h.name := by
+    intro z hz e
+    rw [List.map_append, List.map_cons] at hd
+    have := (List.nodup_append.mp hd).2.1
+    have h2 := (List.nodup_cons.mp this).1
+    exact h2 (e ▸ List.mem_map_of_mem hz)
+  have : (svc ++ (s ++ h :: t)) = (svc ++ s) ++ h :: t := by simp
+  show h ∈ List.foldl mergeStep [] (svc ++ (s ++ h :: t))
+  rw [this, List.foldl_append, List.foldl_cons]
+  apply mem_foldl_merge_kept t _ hnd
+  unfold mergeStep
+  rw [if_neg hn]
+  exact self_mem_putExact h _
+
+/-- **a service-level declaration no method header shadows is published**: with pairwise distinct names among
+the service's declarations, a named service header whose name the method does not declare is itself among
+the operation's header parameters — for EVERY operation of the service, whatever the others declare. -/
+theorem published_service_kept (svc meth : List HSpec) (hd : (svc.map (·.name)).Nodup)
+    (h : HSpec) (hh : h ∈ svc) (hn : h.name ≠ []) (hm : ∀ z ∈ meth, z.name ≠ h.name) : h ∈ combineHeaders svc meth := by
+  unfold combineHeaders
+  have hs : svc ≠ [] := by intro e; rw [e] at hh; cases hh
+  rw [if_neg (by simpa [List.isEmpty_iff] using hs)]
+  split
+  · exact hh
+  · apply mem_sortByName.mpr
+    obtain ⟨s, t, rfl⟩ := List.append_of_mem hh
+    have hnd : ∀ z ∈ t ++ meth, z.name ≠ h.name := by
+      intro z hz e
+      rcases List.mem_append.mp hz with h1 | h1
+      · rw [List.map_append, List.map_cons] at hd
+        have := (List.nodup_append.mp hd).2.1
+        exact (List.nodup_cons.mp this).1 (e ▸ List.mem_map_of_mem h1)
+      · exact hm z h1 e
+    have : ((s ++ h :: t) ++ meth) = s ++ h :: (t ++ meth) := by simp
+    show h ∈ List.foldl mergeStep [] ((s ++ h :: t) ++ meth)
+    rw [this, List.foldl_append, List.foldl_cons]
+    apply mem_foldl_merge_kept (t ++ meth) _ hnd
+    unfold mergeStep
+    rw [if_neg hn]
+    exact self_mem_putExact h _
+
 /-- the published list is a function of the operation's own declarations: the same service list
 combined with two methods gives each its own result (no operation sees another's headers). -/
 example :
